@@ -250,6 +250,7 @@ func vfC09Case(rt *rapid.T, c *ev.Collector) {
 		br.Seed = vfSpecialSeed(seedClass, rapid.IntRange(0, 7).Draw(rt, "specialIdx"), br.Biased)
 	}
 	serverTable := vfSeedTable(br.Seed, br.Biased)
+	serverFull := vfSeedDistFull(br.Seed, br.Biased)
 	cls = append(cls, "e2e", "seed-"+seedClass, fmt.Sprintf("iat-%d", br.IAT))
 	realIsClient := rapid.Bool().Draw(rt, "realIsClient")
 	withhold := realIsClient && rapid.Bool().Draw(rt, "withholdSeedFrame")
@@ -292,6 +293,12 @@ func vfC09Case(rt *rapid.T, c *ev.Collector) {
 			if fmt.Sprint(table) != fmt.Sprint(serverTable) {
 				rt.Fatalf("VIOL[c09-client-ignores-seed]: client has processed the server's seed frame but its length table is %v, the server's is %v", table, serverTable)
 			}
+			if vfDistFull(oc.lenDist) != serverFull {
+				rt.Fatalf("VIOL[c09-client-distribution-differs]: client has processed the server's seed frame and uses the same %d values, but its weights / sampling tables differ from the distribution the bridge builds from that seed (biased=%v)", len(table), br.Biased)
+			}
+		}
+		if !realIsClient && vfDistFull(oc.lenDist) != serverFull {
+			rt.Fatalf("VIOL[c09-server-table]: server connection's weights / sampling tables differ from a distribution built from its seed (biased=%v)", br.Biased)
 		}
 		if !realIsClient && fmt.Sprint(table) != fmt.Sprint(serverTable) {
 			rt.Fatalf("VIOL[c09-server-table]: server connection uses table %v, a distribution built from its seed gives %v", table, serverTable)
